@@ -163,6 +163,15 @@ theorem legacy_incr_rule_incomplete :
     let s3 := (step cfg s2 (.adv 16)).1
     0 ∈ s2.last 0 ∧ readable (step cfg s3 (.deleteTags [0])).1 0 = some (.int 6) := by decide
 
+/-- **The former `set_add` rule breaks the property** (D20, why 9a3ae50 was needed): a long-lived member followed
+by a short-lived one gave the set the short TTL; after it `delete_tags` missed the long-lived key. -/
+theorem latest_ttl_rule_incomplete :
+    let cfg : Cfg := { tagOf := fun _ => [0], batch := 100, keys := [0, 1] }
+    let s1 := (((init.rawSet 0 (.tok 1) (some 800)).setAddLegacy 0 0 (some 800)).noteWrite 0 [0])
+    let s2 := (((s1.rawSet 1 (.tok 2) (some 8)).setAddLegacy 0 1 (some 8)).noteWrite 1 [0])
+    let s3 := (step cfg s2 (.adv 16)).1
+    0 ∈ s3.last 0 ∧ readable (step cfg s3 (.deleteTags [0])).1 0 = some (.tok 1) := by decide
+
 /-! ### second layer: the registry's template matching (what makes templated tags `Registered`) -/
 
 open CashewsVerif.TagTpl in
